@@ -147,6 +147,22 @@ theorem ising_swap_legal (s s' : IsingSpec) (h : s.SameSigns s') (b a : Config) 
     (hl : Legal s.ham b) : Legal s'.ham a :=
   Qmc.legal_transfer s.ham s'.ham a (ising_supportLe s s' h) (Qmc.move_legal s.ham b a hl hm)
 
+/-- `ising_swap_legal` assumes fields of EQUAL sign with `h = 0 ↔ h' = 0`; it does not cover a
+zero-field replica next to field replicas (accepted by `can_swap_managers`). There the transfer is
+legal exactly for strings without field operators … -/
+theorem ising_swap_legal_no_field_ops (s s' : IsingSpec) (h : s.SameLattice s') (b a : Config)
+    (hm : MoveStep b a) (hl : Legal s.ham b)
+    (hnf : ∀ o, some o ∈ b.slots → o.bond < s.nedges + s.nvars) : Legal s'.ham a := by
+  refine Qmc.move_legal s'.ham b a ?_ hm
+  exact ising_transfer_no_field_ops s s' h b hl hnf
+
+/-- … and a field operator handed to a zero-field replica is illegal there (no such bond), which
+is why the real code must refuse such a swap (`relative_weight` = 0 whenever the field replica
+holds field operators) -/
+theorem ising_field_op_illegal_without_field (s' : IsingSpec) (o : Op) (h0 : s'.h = 0)
+    (hb : s'.nedges + s'.nvars ≤ o.bond) : ¬ o.LegalFor s'.ham :=
+  Qmc.ising_field_op_illegal_without_field s' o h0 hb
+
 /-! ### non-vacuity -/
 
 def spec : IsingSpec := { nvars := 2, edges := [(0, 1, 1)], gamma := 1, h := 1 / 2 }
